@@ -27,7 +27,7 @@ ASSUMPTIONS = ['curve points are compared with 10^model_fluxes mJy x nu in erg/c
                'apertures are generated with >= 2 distinct values so that "smallest" and "largest" differ',
                'aperture radii are kept below the largest tabulated aperture by >= 2 % (the 0.999 clamp of interpolate_variable is outside the statement)']
 PROBES = ['mode_interp', 'mode_largest', 'mode_largest+smallest', 'mode_all', 'multi_aperture', 'single_aperture', 'channel_path', 'channel_obj',
-          'consumer_before_plot', 'plot_memmap_off', 'f4_storage', 'fewer_models_than_requested', 'best_fit_last_checked', 'wavelengths_in_other_unit', 'prelude_epoch', 'filters_not_in_wavelength_order', 'aperture_beyond_table_judged']
+          'consumer_before_plot', 'plot_memmap_off', 'f4_storage', 'fewer_models_than_requested', 'best_fit_last_checked', 'wavelengths_in_other_unit', 'prelude_epoch', 'filters_not_in_wavelength_order', 'aperture_beyond_table_judged', 'finely_sampled_sed']
 
 
 def budgets(tier):
@@ -39,6 +39,10 @@ def budgets(tier):
 def generate(rng, tier, idx):
     w = gen_world(rng, fmt=2, n_models=(1, 6), n_wav=(6, 30), n_filters=(1, 1), n_ap=(2, 5), n_par=(1, 1), allow_gz=False, allow_subdir=False)
     w['ext_n'] = 40
+    if rng.random() < 0.03:
+        # a finely sampled SED: more wavelengths than any plausible internal block size
+        w['n_wav'] = rng.choice([1030, 1100, 1500, 2100, 4200])
+        w['n_models'] = min(w['n_models'], 3)
     nf = rng.randint(2, min(5, w['n_wav']))
     sc = {'world': w, 'nf': nf, 'idx_seed': rng.randrange(1 << 30), 'theta_seed': rng.randrange(1 << 30), 'fit_memmap': rng.random() < 0.5,
           'av_range': [rng.choice([0.0, 0.0, -3.0, -0.5, 1.0]), round(rng.uniform(2, 15), 2)], 'source_seed': rng.randrange(1 << 30),
@@ -139,6 +143,8 @@ def _execute(sc, sim, out):
         theta[0], theta[-1] = pool[0], pool[-1]
     if spec['dtype'] == 'f4':
         out.probe('f4_storage')
+    if W.n_wav > 1000:
+        out.probe('finely_sampled_sed')
     wunit = u.Unit(sc.get('wav_unit', 'micron'))
     if sc.get('wav_unit', 'micron') != 'micron':
         out.probe('wavelengths_in_other_unit')
